@@ -7,16 +7,21 @@ Import ListNotations.
 Require Import PGM.Base.Alg PGM.Base.Sums PGM.Model.Domain.
 Set Implicit Arguments.
 
-Section Dataset.
-Variable R : SR.
-Notation K := (car R).
-
+(* all cells of a shape in row-major (C) order *)
+Fixpoint cells (shape : list nat) : list (list nat) :=
+  match shape with [] => [[]] | n :: ns => flat_map (fun v => map (cons v) (cells ns)) (seq 0 n) end.
+Fixpoint list_eqb (a b : list nat) : bool :=
+  match a, b with [], [] => true | x :: a', y :: b' => Nat.eqb x y && list_eqb a' b' | _, _ => false end.
 (* row-major (C order) flat index of a cell *)
 Fixpoint ravel (shape cell : list nat) : nat :=
   match shape, cell with
   | n :: ns, v :: vs => v * prodn ns + ravel ns vs
   | _, _ => 0
   end.
+
+Section Dataset.
+Variable R : SR.
+Notation K := (car R).
 
 Record dataset := { ddom : dom; rows : list (list nat); weights : list K }.
 
